@@ -90,3 +90,13 @@ package epubdoc
 //@   property C02
 //@   flags callsites
 //@   callsite io.ReadAll(x) requires members_are_read_through_readPart: false
+
+// ---- C02: the recursive walks of the navigation document run only on a tree whose depth has been checked ----
+// navTreeDepthExceeds walks x/net/html nodes (opaque here): its meaning is assumed, its use is checked
+//@ func navTreeDepthExceeds results (r)
+//@   property C02
+//@   flags pure, trusted
+//@ func parseNavXHTML results (toc, err)
+//@   property C02
+//@   flags callsites
+//@   callsite parseOLEntries(o) requires depth_checked_before_the_recursive_walks: !navTreeDepthExceeds(doc, maxNavTreeDepth)
